@@ -255,7 +255,31 @@ def handle1 : List String → String
     | _, _, _, _ => "bad-op"
   | _ => "bad-op"
 
+def seqCaseOut (ts : List Int) (c : String) : String :=
+  match c.splitOn "!" with
+  | [act, ver, cb, ins] =>
+    match parseBool? act, ver.toNat?, parseBool? cb, parseList "," parseLockIn? ins with
+    | some act, some ver, some cb, some ins =>
+      match calcSequenceLockChain act ver cb ts ins with
+      | .ok s h => s!"{s},{h}"
+      | .missing => "err:missing"
+    | _, _, _, _ => "bad-op"
+  | _ => "bad-op"
+
 def handle : List String → String
+  | ["seqmulti", times, cases] =>
+    match parseList "," String.toInt? times with
+    | some ts =>
+      if ts = [] then "bad-op" else
+      "/".intercalate ((cases.splitOn "/").map (seqCaseOut ts)) ++ " stable=1 inputs=1"
+    | none => "bad-op"
+  | ["inval", tx, cb, utxos] =>
+    match parseTx? tx, parseBool? cb, parseList "," parseUtxo? utxos with
+    | some t, some cb, some us =>
+      if us.length ≠ t.ins.length then "bad-op" else
+      let c (b16 sw : Bool) : String := s!"c{b01 b16}{b01 sw}={optNat (getSigOpCost t cb us b16 sw)}"
+      s!"legacy={countSigOps t} p2sh={optNat (countP2SHSigOps t cb us)} {c false false} {c false true} {c true false} {c true true} w={txWeight t} stable=1 inputs=1"
+    | _, _, _ => "bad-op"
   | ["par", body] => "~".intercalate ((body.splitOn "~").map (fun sub => handle1 (sub.splitOn "^")))
   | ["vwcb", txs] =>
     match parseTxs? txs with
